@@ -249,6 +249,25 @@ fn gen_line(rng: &mut Rng, streams: &[(String, u64)], storages: &[String], open:
             if held(&p, open) { "flush".to_string() } else { format!("rmall {}", enc(&p)) }
         }
         8 if !streams.is_empty() => format!("get {}", enc(&rng.pick(streams).0)),
+        // the metadata setters, on storages, the root and streams, with times at and beyond both ends of what a
+        // FILETIME can hold (before 1601; after the year 60056; the ends of the i64 range of seconds)
+        9 => {
+            let target = match rng.below(4) {
+                0 => "/".to_string(),
+                1 if !storages.is_empty() => rng.pick(storages).clone(),
+                2 if !streams.is_empty() => rng.pick(streams).0.clone(),
+                _ => format!("{}/{}", parent, rng.pick(&names)),
+            };
+            let secs: i64 = *rng.pick(&[i64::MIN + 1, i64::MIN + 2, -11_644_473_601, -11_644_473_600, -1, 0, 1, 1 << 40, 1_833_029_933_770, 1_833_029_933_771, i64::MAX - 1, i64::MAX]);
+            let nanos: u32 = *rng.pick(&[0u32, 1, 99, 100, 999_999_999]);
+            match rng.below(5) {
+                0 => format!("setctime {} {} {}", enc(&target), secs, nanos),
+                1 => format!("setmtime {} {} {}", enc(&target), secs, nanos),
+                2 => format!("setbits {} {}", enc(&target), rng.pick(&[0u32, 1, u32::MAX])),
+                3 => format!("setclsid {} {}", enc(&target), hex(&pattern(16, step))),
+                _ => format!("setmtime {} {} {}", enc(&target), secs, 0),
+            }
+        }
         _ => "flush".to_string(),
     }
 }
